@@ -558,16 +558,19 @@ def _loader_check(out, seen, ctx):
         traces = np.load(os.path.join(out, "waveforms.traces.npy"))
         channels = np.load(os.path.join(out, "waveforms.channels.npz"))["channels"]
         units = sorted(set(tab["cluster"].tolist()))
-        for labels in ([units[0]], units[:2], units, [units[-1], units[0]]):
-            for indices in (None, [0], [0, 1]):
+        sizes = [int((tab["cluster"] == u).sum()) for u in units]
+        kmin, kmax = min(sizes), max(sizes)
+        # indices that only some units have (the table is ragged: units hold different numbers of waveforms), as lists and arrays
+        for labels in ([units[0]], units[:2], units, [units[-1], units[0]], np.array(units[:1]), [units[int(np.argmin(sizes))]], [units[int(np.argmin(sizes))], units[int(np.argmax(sizes))]]):
+            for indices in (None, [0], [0, 1], list(range(kmax)), np.arange(kmin + 1), [kmin], [kmax - 1, 0]):
                 w, info, ch = wl.load_waveforms(labels=labels, indices=indices)
-                sel = tab["cluster"].isin(labels).to_numpy()
+                sel = tab["cluster"].isin(list(labels)).to_numpy()
                 if indices is not None:
-                    sel = sel & tab["index_within_clusters"].isin(indices).to_numpy()
+                    sel = sel & tab["index_within_clusters"].isin(list(indices)).to_numpy()
                 rows = np.flatnonzero(sel)
                 if w.shape[0] != rows.size or not np.array_equal(w, traces[rows], equal_nan=True) or not np.array_equal(ch, channels[rows]) \
                         or info["sample"].tolist() != tab["sample"].iloc[rows].tolist():
-                    seen.setdefault("loader", "%s: load_waveforms(labels=%r, indices=%r) does not return the saved rows" % (ctx, labels, indices))
+                    seen.setdefault("loader", "%s: load_waveforms(labels=%r, indices=%r) does not return the saved rows (units hold %r waveforms)" % (ctx, list(labels), None if indices is None else list(indices), sizes))
         # index_within_clusters counts 0.. within each unit
         for u in units:
             iw = tab["index_within_clusters"][tab["cluster"] == u].tolist()
